@@ -430,8 +430,10 @@ class NumpyConverter(object):
         # Do some sanity checks
         assert data_array.dtype == np.float32
         assert data_array.shape == (len(self.ilines), len(self.xlines), len(self.samples))
+        # The SGZ header-word table has one entry per field of a segyio trace header, not per TraceField member
+        table_fields = [int(hw) for hw in segyio.segy.Field(bytearray(240), kind='trace')]
         for tracefield, header_array in self.trace_headers.items():
-            assert tracefield in segyio.tracefield.keys.values()
+            assert int(tracefield) in table_fields
             assert header_array.shape == data_array[:, :, 0].shape
 
         # Header arrays are stored as 32-bit integers, in ascending header-word order (the order the reader assumes)
